@@ -575,7 +575,7 @@ func (conv) Gen(r *hx.Rng, n int, _ string, emit func(string)) {
 				emit(ty + " scantok " + mode + " " + hx.Pick(r, []string{"v", "d", "x", "X", "o", "O", "b", "s", "q"}) + " " + hx.Hex([]byte(genText(r))))
 			case 6:
 				hi, lo := genPair(r)
-				emit(ty + " " + hx.Pick(r, []string{"asbigfloat", "asbigfloat", "asbigfloat", "float64m"}) + " " + pair(hi, lo))
+				emit(ty + " " + hx.Pick(r, []string{"asbigfloat", "asbigfloat", "bigfloat64", "bigfloat64", "float64m"}) + " " + pair(hi, lo))
 			case 0:
 				hi, lo := genPair(r)
 				emit(ty + " comps " + pair(hi, lo))
